@@ -203,6 +203,8 @@ func (e *exec) Exec(op string) string {
 		e.digests, e.history = nil, nil
 		e.sys, e.reps, e.nonce, e.mnonce, e.supply0, e.pending, e.elects, e.noSupply, e.sysCalled = false, nil, map[int]uint64{}, 0, "", nil, map[uint64]string{}, false, map[string]bool{}
 		return e.c.Exec(op)
+	case "kvh":
+		return kvHash(toks)
 	case "procs":
 		var n int
 		fmt.Sscan(strings.TrimPrefix(toks[1], "n="), &n)
@@ -289,6 +291,9 @@ func (e *exec) Exec(op string) string {
 
 func (P) Monitor(c *hx.CaseRun) []hx.Failure {
 	var fs []hx.Failure
+	if c.Tags["kvhash"] {
+		return kvHashMonitor(c)
+	}
 	for i, op := range c.Ops {
 		ans := c.Impl[i]
 		if strings.Contains(ans, "agree=false") {
@@ -329,6 +334,7 @@ func (P) Monitor(c *hx.CaseRun) []hx.Failure {
 }
 
 func (P) Generate(g *hx.Gen) {
+	kvHashCases(g)
 	genClassic(g)
 	genSys(g)
 }
